@@ -51,6 +51,8 @@ type Store[H header.Header[H]] struct {
 	// writing to datastore
 	//
 	// queue of headers to be written
+	// flushMu makes writing out the pending batch and deleting a header mutually exclusive
+	flushMu sync.Mutex
 	writes chan []H
 	// signals when writes are finished
 	writesDn chan struct{}
@@ -480,6 +482,10 @@ func (s *Store[H]) flushLoop(ctx context.Context) {
 		}
 
 		startTime := time.Now()
+		// a header must not be deleted between the moment it is picked for this flush and the moment
+		// the pending batch is reset, or the commit below would bring it back
+		s.flushMu.Lock()
+		defer s.flushMu.Unlock()
 		toFlush := s.pending.GetAll()
 
 		for i := 0; ; i++ {
